@@ -54,7 +54,14 @@ def run_property(prop: str, tier: str, write_evidence=True, only=None, root=None
         from . import selftest
 
         extra = selftest.run_for(prop, ctx)
-    return report.finish(ctx, t0, ctx.technique, ctx.assumptions, ctx.explanation, write_evidence=write_evidence, extra=extra), ctx
+    try:
+        return report.finish(ctx, t0, ctx.technique or "static analysis", ctx.assumptions, ctx.explanation or "analysis did not start (see analysis_errors)",
+                             write_evidence=write_evidence, extra=extra), ctx
+    except Exception as e:  # a failure while reporting is an analysis failure (exit 2), never a verdict
+        print(f"ANALYSIS-ERROR property={prop} rule=internal reporting failed: {type(e).__name__}: {str(e)[:200]}")
+        if os.environ.get("NQSA_DEBUG"):
+            traceback.print_exc()
+        return 2, ctx
 
 
 def main(argv):
